@@ -234,6 +234,53 @@ def builder_histories(ctx):
     ctx.nt("builder-histories")
 
 
+def builder_values_after_use(ctx):
+    """a spec a builder returned is still the documented one after the package has USED it: kernels that read every zone / special grid /
+    constant traced and executed at run time under it, compiled with it, analysed with it"""
+    from bloqade.shuttle.stdlib.layouts import single_col_zone, two_col_zone
+    from bloqade.shuttle.stdlib.layouts.gemini import base_spec, logical
+    from bloqade.shuttle.analysis.zone import ZoneAnalysis
+    from bloqade.shuttle.codegen.taskgen import TraceInterpreter
+    from bloqade.shuttle.passes.hint_zone import HintZone
+    from gen import kernels
+    from vcommon import events
+    B = {"gemini.base_spec.get_base_spec()": base_spec.get_base_spec, "gemini.logical.get_spec()": logical.get_spec,
+         "single_col_zone.get_spec(2,3,2.0)": lambda: single_col_zone.get_spec(2, 3, 2.0),
+         "two_col_zone.get_spec(2,2,8.0,2.0)": lambda: two_col_zone.get_spec(2, 2, 8.0, 2.0)}
+    for name, f in B.items():
+        held = f()
+        snap = show_spec(held)
+        zone = next(iter(held.layout.static_traps))
+        body = "".join(f"    t{i} = spec.get_static_trap(zone_id=\"{z}\")\n" for i, z in enumerate(list(held.layout.static_traps)[:4]))
+        body += "".join(f"    s{i} = spec.get_special_grid(grid_id=\"{z}\")\n" for i, z in enumerate(list(held.layout.special_grid)[:3]))
+        body += "".join(f"    c{i} = spec.get_int_constant(constant_id=\"{z}\")\n" for i, z in enumerate(list(held.int_constants)[:3]))
+        tsrc = "@tweezer\ndef kt():\n" + body + "    action.set_loc(t0[0:1, 0:1])\n    action.move(grid.shift(t0[0:1, 0:1], 1.0, 0.0))\n"
+        used = []
+        try:
+            kt = kernels.define(tsrc)["kt"]
+            TraceInterpreter(held).run_trace(kt, (), {})
+            used.append("traced")
+            for dec in ("", "(arch_spec=S)"):
+                msrc = f"@move{dec}\ndef km():\n" + body + "    gate.local_rz(0.5, t0)\n    f = schedule.device_fn(kt, [0], [0])\n    f()\n"
+                m = kernels.define(msrc, S=held, kt=kt)["km"]
+                events.run_events(m, (), held, plain=bool(dec))
+                HintZone(m.dialects, arch_spec=held)(m)
+                ZoneAnalysis(m.dialects, arch_spec=held).run_analysis(m)
+                used.append("executed" + dec)
+        except Exception as e:
+            ctx.obligation(f"kernels reading the spec of {name} can be run", False, f"{type(e).__name__}: {e}"[:200])
+        ctx.evaluations += 1
+        rep = {"builder": name, "after_use": used}
+        if show_spec(held) != snap:
+            ctx.fail({"builder": name.split("(")[0], "problem": "returned value changed by using it"}, rep,
+                     f"the spec returned by {name} is no longer what the builder returned after the package used it ({', '.join(used)}): {snap[:80]} became {show_spec(held)[:120]}")
+        elif show_spec(f()) != snap:
+            ctx.fail({"builder": name.split("(")[0], "problem": "result depends on call history", "after": "use of an earlier result"}, rep,
+                     f"{name} returns a different spec after an earlier result was used by the package")
+        else:
+            ctx.nt(("builder-after-use", name))
+
+
 def numeric_type_cases(ctx):
     """the same request written with int and with float arguments (spacing=10 vs 10.0, gate_spacing=2 vs 2.0, defaults omitted vs spelled
     out): the documented geometry does not depend on the numeric type of a spacing"""
@@ -369,6 +416,7 @@ def run(ctx):
                 ctx.evaluations += 1
                 ctx.nt(("two_col", nx, ny, s, gs))
     builder_histories(ctx)
+    builder_values_after_use(ctx)
     inexact_spacing_cases(ctx)
     numeric_type_cases(ctx)
     B, Lg = base_spec.get_base_spec(), logical.get_spec()
